@@ -117,7 +117,10 @@ Inductive place :=
 | PBeside (l : Z)            (* a file named "<level database of l>-<suffix>" next to that database *)
 | POutside.                  (* anything else below the cache directory *)
 
-Record entry := mkEntry { e_place : place; e_mtime : Z; e_isdir : bool }.
+(* e_mtime is the time of the directory entry itself (os.lstat): for a tile that is a symbolic link to a shared
+   single-colour file (link_single_color_images) it is the time of the link; e_target is then the time of the file
+   the link points to (None: a regular file).  No function of the model reads e_target. *)
+Record entry := mkEntry { e_place : place; e_mtime : Z; e_isdir : bool; e_target : option Z }.
 
 Definition is_tile (e : entry) : bool :=
   match e_place e with PTile _ _ _ _ => true | _ => false end.
@@ -354,7 +357,9 @@ Definition bbox_intersects (a b : bbox) : bool :=
   let '(ax0, ay0, ax1, ay1) := a in let '(bx0, by0, bx1, by1) := b in
   (ax0 <? bx1) && (ax1 >? bx0) && (ay0 <? by1) && (ay1 >? by0).
 
-Definition cov_of (p : pyramid) (cov : bbox) (mt : coord) : bool := bbox_intersects cov (meta_bbox p mt).
+(* coverage = union of axis-parallel boxes (one box: BBOXCoverage, several: a polygon GeomCoverage) *)
+Definition cov_of (p : pyramid) (cov : list bbox) (mt : coord) : bool :=
+  existsb (fun c => bbox_intersects c (meta_bbox p mt)) cov.
 
 Definition zseq (n : Z) : list Z := map Z.of_nat (seq 0 (Z.to_nat n)).
 Definition cdivZ (a b : Z) : Z := - ((- a) / b).
@@ -367,7 +372,7 @@ Definition all_meta (p : pyramid) (l : Z) : list coord :=
 Definition mem_coord (c : coord) (cs : list coord) : bool := existsb (Z3_eqb c) cs.
 
 (* the walk visited exactly the meta tiles of the selected levels that intersect the coverage *)
-Definition walk_exact_b (p : pyramid) (levels : list Z) (cov : bbox) (walked : list coord) : bool :=
+Definition walk_exact_b (p : pyramid) (levels : list Z) (cov : list bbox) (walked : list coord) : bool :=
   forallb (fun mt => let '(_, _, l) := mt in
                      memZ l levels && mem_coord mt (all_meta p l) && cov_of p cov mt) walked
   && forallb (fun l => forallb (fun mt => implb (cov_of p cov mt) (mem_coord mt walked)) (all_meta p l)) levels.
@@ -405,7 +410,7 @@ Definition observe_dirs (b : backend) (s : strat) : bool :=
 
 (* one correspondence case: inputs, the walk the implementation performed, what it left behind *)
 Definition corr_case :=
-  (backend * pyramid * task * bbox * list coord * list entry * list bool * list bool)%type.
+  (backend * pyramid * task * list bbox * list coord * list entry * list bool * list bool)%type.
 
 Definition bools_eqb (a b : list bool) : bool := list_eqb Bool.eqb a b.
 
@@ -459,7 +464,7 @@ Definition coord_level (c : coord) : Z := let '(_, _, l) := c in l.
 
 (* several tasks in one cleanup() call *)
 Definition check_multi (q : Z)
-           (c : backend * pyramid * list (task * bbox * list coord) * list entry * list bool) : bool :=
+           (c : backend * pyramid * list (task * list bbox * list coord) * list entry * list bool) : bool :=
   let '(b, p, ts, ents, surv) := c in
   let after := cleanup_tasks b q (p_msize p) (map (fun x => let '(t, _, w) := x in (t, w)) ts) ents in
   bools_eqb (map (fun e => existsb (entry_eqb e) after) ents) surv
@@ -468,3 +473,71 @@ Definition check_multi (q : Z)
                        | SWalk => walk_exact_b p (t_levels t) cov w
                        | _ => true
                        end) ts.
+
+(* ------------------------------------------------------------------ levels of a task (seed/config.py) *)
+
+(* LevelsRange.for_grid: from/to may be missing (None); 0 is a level like any other *)
+Definition levels_range (from to : option Z) (nlevels : Z) : list Z :=
+  let start := match from with Some a => a | None => 0 end in
+  let stop := Z.min (match to with Some b => b | None => 999 end) (nlevels - 1) in
+  map (fun k => start + k) (zseq (stop + 1 - start)).
+
+Definition check_levels (c : option Z * option Z * Z * list Z) : bool :=
+  let '(from, to, n, obs) := c in list_eqb Z.eqb (levels_range from to n) obs.
+
+(* ------------------------------------------------------------------ interrupted and continued cleanup
+   (directory strategy with a progress store: mapproxy-seed --cleanup --progress-file F, then --continue) *)
+
+(* order of the names of level directories as DirectoryCleanupProgress.can_skip compares their last path
+   component: two decimal numbers ("%02d" % l, str(l)) are compared as numbers, anything else as Python strings
+   ("L%02d" % l: first digit, second digit, for levels 0..99).  Only names of one layout are ever compared. *)
+Definition dname_key (d : dname) : Z * Z :=
+  match d with
+  | DPad l | DPlain l => (l, 0)
+  | DArc l => (l / 10, l mod 10)
+  | DOther k => (k, -1)
+  end.
+
+Definition key_ltb (a b : Z * Z) : bool :=
+  (fst a <? fst b) || ((fst a =? fst b) && (snd a <? snd b)).
+
+(* can_skip(old_dir, current_dir): True iff current sorts strictly before old *)
+Definition can_skip (old : option dname) (cur : dname) : bool :=
+  match old with
+  | None => false
+  | Some o => key_ltb (dname_key cur) (dname_key o)
+  end.
+
+(* simple_cleanup with a progress store holding `old`: levels that can be skipped are not cleaned *)
+Definition simple_cleanup_from (b : backend) (t : task) (old : option dname) (c : list entry) : list entry :=
+  fold_left (fun c l =>
+    match b with
+    | BFile lay => match level_dir lay l with
+                   | Some d => if can_skip old d then c else cleanup_directory b d (t_T t) (t_all t) c
+                   | None => c
+                   end
+    | _ => c
+    end) (t_levels t) c.
+
+(* state when the first run dies while it handles the k-th level of the task: the levels before it are done,
+   the store names the k-th directory, of that directory an arbitrary part (keep = false) is already removed *)
+Definition interrupted (b : backend) (t : task) (k : nat) (keep : entry -> bool) (c : list entry)
+  : option dname * list entry :=
+  let done := simple_cleanup b (mkTask (firstn k (t_levels t)) (t_T t) (t_all t) (t_complete t) (t_skip t)) c in
+  match b, nth_error (t_levels t) k with
+  | BFile lay, Some l =>
+      match level_dir lay l with
+      | Some d => (Some d, filter (fun e => keep e || negb (dir_removes b d (t_T t) (t_all t) e)) done)
+      | None => (None, done)
+      end
+  | _, _ => (None, done)
+  end.
+
+Definition resumed (b : backend) (t : task) (k : nat) (keep : entry -> bool) (c : list entry) : list entry :=
+  let '(old, c1) := interrupted b t k keep c in simple_cleanup_from b t old c1.
+
+(* correspondence: first run interrupted before it cleans level number k (nothing of it removed), then continued *)
+Definition check_resume (c : backend * task * nat * list entry * list bool) : bool :=
+  let '(b, t, k, ents, surv) := c in
+  let after := resumed b t k (fun _ => true) ents in
+  bools_eqb (map (fun e => existsb (entry_eqb e) after) ents) surv.
